@@ -174,7 +174,7 @@ class LaxBoundedSemaphore(_Semaphore):
 
         def clear(self):
             while self._value < self._initial_value:
-                _Semaphore.release(self)
+                self.release()
     else:
 
         def __init__(self, value=1, verbose=None):
@@ -197,7 +197,7 @@ class LaxBoundedSemaphore(_Semaphore):
 
         def clear(self):  # noqa
             while self._Semaphore__value < self._initial_value:
-                _Semaphore.release(self)
+                self.release()
 
 #
 # Exceptions
